@@ -61,6 +61,21 @@ def sdl_refusal_kind(msg):
     return re.sub(r"<[^>]*>", "<>", msg)[:60]
 
 
+def matches_deviation_plan(alt, resp, rt):
+    """The response and the set of resolver calls are exactly those of the alternative plan (object
+    identities aside: the actors served the objects of the primary plan)."""
+    from simv.oracle import same
+    if alt.refused or not isinstance(resp, dict) or not same(resp.get("data"), alt.data):
+        return False
+    got = sorted(tuple(e.get("path") or ()) for e in (resp.get("errors") or []) if isinstance(e, dict))
+    want = sorted(tuple(e.path) for e in alt.errors)
+    if set(got) != set(want):
+        return False
+    called = sorted(c[0] for c in rt.calls)
+    planned = sorted(c.path for c in alt.calls if c.args is not None)
+    return called == planned
+
+
 def exc_violation(out):
     if isinstance(out.exc, (SimDeadlock, SimStepCap)):
         return V("no_termination", "execute did not terminate: %r (parked=%d)" % (out.exc, len(out.rt.loop.parked)),
@@ -145,7 +160,18 @@ def run_single(prop, seed, preset, want_case, schema_knobs=None, doc_knobs=None,
         viol.append(exc_violation(out))
     else:
         viol.extend(check_envelope(out.resp, case.text))
-        viol.extend(check_against_plan(case, plan, out.resp, out.rt, out.events, strict_calls))
+        pv = check_against_plan(case, plan, out.resp, out.rt, out.events, strict_calls)
+        if pv and plan.probes.get("if_null_on_skip"):
+            # recorded deviation (known_findings.json): a selection whose @skip `if` is a null variable is
+            # dropped instead of kept.  Only a response that equals, in every respect, the plan computed
+            # with that one deviation is attributed to it; anything else is reported as it is.
+            alt_knobs = dict(plan_knobs or {}, skip_null_excludes=True)
+            alt = make_plan(case, Tape(seed, preset), faults, knobs=alt_knobs, base=getattr(plan, "base", None) or plan)
+            if matches_deviation_plan(alt, out.resp, out.rt):
+                pv = [V("data_mismatch", "a selection carrying @skip(if: $v) with $v null (nullable variable with a default, explicit "
+                        "null given) was dropped without an error; CollectFields keeps it: " + (pv[0]["detail"] if isinstance(pv[0], dict) else str(pv[0]))[:300],
+                        kind="skip_if_null_selection_dropped")]
+        viol.extend(pv)
         if out.tasks_alive or out.parked_left:
             viol.append(V("work_left_behind", "%d tasks alive, %d gates parked when execute returned" % (
                 out.tasks_alive, out.parked_left)))
